@@ -166,7 +166,10 @@ theorem tr_pushToBlock2 (o : Obj) (p : Pkt) (r : Obj × List WEv) (h : pushToBlo
         rw [ht] at h
         simp only [] at h
         by_cases h0 : l = 0
-        · rw [if_pos h0] at h; injection h with h; subst h; exact tr_complete' o
+        · rw [if_pos h0] at h; injection h with h; subst h
+          split
+          · exact tr_complete' o
+          · exact Tr.refl o
         · rw [if_neg h0] at h
           by_cases h1 : sbn ≥ o.nbBlocks
           · rw [if_pos h1] at h; injection h with h; subst h; exact Tr.refl o
